@@ -118,3 +118,31 @@ impl Sink {
 pub fn guarded<T>(f: impl FnOnce() -> T) -> Option<T> {
     std::panic::catch_unwind(std::panic::AssertUnwindSafe(f)).ok()
 }
+
+
+/// An `io::Write` sink that accepts at most `max` bytes per `write` call (short writes are legal
+/// for a writer: pipes, sockets, fixed-size buffers).  The Write-based entry points must deliver
+/// every byte to such a sink too (seed C16e).
+pub struct ChunkWriter {
+    pub max: usize,
+    pub data: Vec<u8>,
+    pub calls: usize,
+}
+
+impl ChunkWriter {
+    pub fn new(max: usize) -> Self {
+        ChunkWriter { max: max.max(1), data: Vec::new(), calls: 0 }
+    }
+}
+
+impl std::io::Write for ChunkWriter {
+    fn write(&mut self, buf: &[u8]) -> std::io::Result<usize> {
+        self.calls += 1;
+        let n = buf.len().min(self.max);
+        self.data.extend_from_slice(&buf[..n]);
+        Ok(n)
+    }
+    fn flush(&mut self) -> std::io::Result<()> {
+        Ok(())
+    }
+}
